@@ -115,10 +115,11 @@ class Obligation:
                 "no_input_expected": getattr(self, "no_input_expected", False),
                 "shape_only": getattr(self, "shape_only", False),
                 "bounded": getattr(self, "bounded", False), "vc_sample": getattr(self, "vc_sample", None),
-                "confirmed_natively": getattr(self, "confirmed_natively", False)}
+                "confirmed_natively": getattr(self, "confirmed_natively", False),
+                "max_query_s": round(getattr(self, "max_query_s", 0.0), 3)}
 
 
-def check_valid(it, goal, ob, timeout_ms=10000, cvc5_fallback=None):
+def check_valid(it, goal, ob, timeout_ms=30000, cvc5_fallback=None):
     """is `pc => goal` valid?  returns ('unsat'|'sat'|'unknown', model)"""
     if goal is True:
         ob.backend["trivial"] += 1
@@ -135,31 +136,41 @@ def check_valid(it, goal, ob, timeout_ms=10000, cvc5_fallback=None):
         ob.vc_sample = {"path_condition_assertions": len(s.assertions()), "negated_clause_smt": z3.Not(g).sexpr()[:700]}
     s.push()
     s.add(z3.Not(g))
+    s.set("timeout", min(timeout_ms, 8000))
     r = s.check()
     model = s.model() if r == z3.sat else None
-    smt2 = None
-    if r == z3.unknown and cvc5_fallback is not None:
-        smt2 = s.to_smt2()
+    cvc5_said = None
+    if r == z3.unknown:
+        # the incremental solver (long push/pop history) can be far slower than a solver started from scratch on the same
+        # assertions: ask cvc5 (decides these linear-arithmetic queries in about a second), then a fresh z3 (also gives a model)
+        if cvc5_fallback is not None:
+            cvc5_said = cvc5_fallback(s.to_smt2())
+        if cvc5_said != "unsat":
+            fresh = z3.Solver()
+            fresh.set("timeout", timeout_ms)
+            fresh.add(*s.assertions())
+            r = fresh.check()
+            if r == z3.sat:
+                model = fresh.model()
+            ob.backend["z3-fresh"] = ob.backend.get("z3-fresh", 0) + 1
     s.pop()
+    s.set("timeout", timeout_ms)
     ob.queries += 1
     ob.solver_s += time.time() - t0
+    ob.max_query_s = max(getattr(ob, "max_query_s", 0.0), time.time() - t0)
     if r == z3.unsat:
         ob.backend["z3"] += 1
         return "unsat", None
     if r == z3.sat:
         ob.backend["z3"] += 1
         return "sat", model
-    if smt2 is not None:
-        t0 = time.time()
-        rr = cvc5_fallback(smt2)
-        ob.solver_s += time.time() - t0
-        if rr == "unsat":
-            ob.backend["cvc5"] += 1
-            return "unsat", None
+    if cvc5_said == "unsat":
+        ob.backend["cvc5"] += 1
+        return "unsat", None
     return "unknown", None
 
 
-def run_cvc5(smt2, timeout_s=20):
+def run_cvc5(smt2, timeout_s=40):
     import subprocess
     import tempfile
     import os
@@ -178,7 +189,7 @@ def run_cvc5(smt2, timeout_s=20):
 
 
 def verify_function(world, func_name, setup, run, ensures, props, contracts=None, allow_raises=(),
-                    describe_args=None, check_frame=True, cover=None, timeout_ms=10000, prop_map=None, only_prop=None,
+                    describe_args=None, check_frame=True, cover=None, timeout_ms=30000, prop_map=None, only_prop=None,
                     configure=None):
     """ensures(it, args, result) -> list of (clause name, [property ids], Bool term)
     returns (list of Obligation, info)"""
